@@ -232,6 +232,7 @@ macro_rules! depth2_async {
 // @bound peer-opened request stream read through the ASYNC reader (the path the driver uses); all 49 sequences of two frames over the 7-symbol alphabet, byte-wise delivery
 // @oracle same reference table as c12_typestate_biremote; in particular a WT signal is valid only as the very first delivered frame (GREASE before it counts), otherwise H3_FRAME_ERROR
 // @assume From<io::Error> stub; model source never errors / never Pending (L1 covers chunkings)
+// @unwindset read_frame_async:3
 depth2_async!(c12_typestate_async_biremote, Stream::accept_bi().upgrade(), Role::BiRemote);
 
 // @h props=C12,C15 tier=quick t=2400 mem=20 sub=typestate-async-control covers=any
@@ -239,6 +240,7 @@ depth2_async!(c12_typestate_async_biremote, Stream::accept_bi().upgrade(), Role:
 // @bound control stream, async reader; as c12_typestate_async_biremote
 // @oracle same reference table as c12_typestate_control
 // @assume as c12_typestate_async_biremote
+// @unwindset read_frame_async:3
 depth2_async!(c12_typestate_async_control, control_stream(), Role::Control);
 
 // @h props=C12,C15 tier=thorough t=2400 mem=20 sub=typestate-async-bilocal covers=any
@@ -246,6 +248,7 @@ depth2_async!(c12_typestate_async_control, control_stream(), Role::Control);
 // @bound locally-opened request stream, async reader; as c12_typestate_async_biremote
 // @oracle same reference table as c12_typestate_bilocal
 // @assume as c12_typestate_async_biremote
+// @unwindset read_frame_async:3
 depth2_async!(c12_typestate_async_bilocal, Stream::open_bi().upgrade(), Role::BiLocal);
 
 // @h props=C12,C16 tier=quick t=300 sub=error-code-registry
